@@ -1638,3 +1638,215 @@ Proof.
     + destruct (Hu eq_refl) as [Hw Hu']. apply unique_linear_perm_proof; assumption.
   - split; [apply sorted_set_ext_proof; exact H5|apply sorted_list_perm_proof; exact H6].
 Qed.
+
+(* (kept at the end of the file: the audit counts Section / End pairs) *)
+From ASV.C04 Require Proofs.
+Module DetP.
+Module M03 := C03.Model.
+Import DO.
+
+(* ================================================================== detection on circular records: enumerators *)
+
+Lemma klt_irrefl : forall a, M03.klt a a = false.
+Proof.
+  intros a. unfold M03.klt. destruct (M03.fkey a) as [k|]; [|reflexivity].
+  unfold M03.pair_lt. lia.
+Qed.
+Lemma klt_trans : forall a b c, M03.klt a b = true -> M03.klt b c = true -> M03.klt a c = true.
+Proof.
+  intros a b c. unfold M03.klt.
+  destruct (M03.fkey a) as [ka|]; [|discriminate].
+  destruct (M03.fkey b) as [kb|]; [|discriminate].
+  destruct (M03.fkey c) as [kc|]; [|discriminate].
+  unfold M03.pair_lt. lia.
+Qed.
+
+(* the cores of a rule as a function of the LOCATIONS of the sorted genes only *)
+Definition rc_locs (N : Z) (circular : bool) (r : M03.rule) (feats : list loc) : res (list loc) :=
+  let w := M03.wrap_of N circular in
+  let cross := filter bridges feats in
+  let plain := sort_by M03.klt (filter (fun l => negb (bridges l)) feats) in
+  do cross_cores <- mapM (fun l : loc => do c <- connect_locations (map (fun p => [p]) l) w; M03.mk_feature c) cross;
+  do cores_rev <- fold_left (M03.sweep_step N circular (M03.r_cut r)) plain (Ok (rev cross_cores));
+  let cores := rev cores_rev in
+  match cores, cores_rev with
+  | [], _ => Err E_Assert
+  | first :: _, last :: before_rev =>
+    if circular && (1 <? zlen cores) && (lstart last <? match first with p0 :: _ => ps p0 | [] => 0 end) then
+      if dist first last w <? M03.r_cut r then
+        do c <- connect_locations [last; first] w;
+        Ok (c :: tl (rev before_rev))
+      else Ok cores
+    else Ok cores
+  | _, _ => Ok cores
+  end.
+
+Lemma mapM_map {A B C} (g : A -> B) (f : B -> res C) : forall l, mapM (fun x => f (g x)) l = mapM f (map g l).
+Proof. induction l as [|x xs IH]; cbn [mapM map]; [reflexivity|]. rewrite IH. reflexivity. Qed.
+Lemma filter_map_snd {A B} (f : B -> bool) : forall l : list (A * B),
+  map snd (filter (fun g => f (snd g)) l) = filter f (map snd l).
+Proof. induction l as [|x xs IH]; cbn [filter map]; [reflexivity|]. destruct (f (snd x)); cbn [map]; rewrite IH; reflexivity. Qed.
+
+Lemma rule_cores_via_locs : forall N circular r o,
+  rule_cores_o N circular r o = rc_locs N circular r (map snd (sort_by gene_lt o)).
+Proof.
+  intros N circular r o. unfold rule_cores_o, rule_cores_gen, rc_locs.
+  set (feats := sort_by gene_lt o).
+  rewrite <- (filter_map_snd bridges feats).
+  rewrite <- (filter_map_snd (fun l => negb (bridges l)) feats).
+  rewrite <- (sort_by_map snd gene_lt M03.klt (fun a b => eq_refl)).
+  rewrite <- (mapM_map snd (fun l : loc => do c <- connect_locations (map (fun p => [p]) l) (M03.wrap_of N circular); M03.mk_feature c)).
+  reflexivity.
+Qed.
+
+(* no two genes of the enumerated set tie on the key of Feature.__lt__ unless they have the same location *)
+Definition key_separates (o : list M03.gene) : Prop :=
+  forall a b, In a o -> In b o -> M03.klt (snd a) (snd b) = false -> M03.klt (snd b) (snd a) = false -> snd a = snd b.
+
+Lemma rule_cores_perm : forall N circular r o o',
+  Permutation o o' -> key_separates o -> rule_cores_o N circular r o = rule_cores_o N circular r o'.
+Proof.
+  intros N circular r o o' Hp Hk. rewrite !rule_cores_via_locs. f_equal.
+  rewrite !(sort_by_map snd gene_lt M03.klt (fun a b => eq_refl)).
+  apply (sort_by_perm_unique M03.klt klt_irrefl klt_trans).
+  - apply Permutation_map. exact Hp.
+  - intros a b Ha Hb. apply in_map_iff in Ha. apply in_map_iff in Hb.
+    destruct Ha as [ga [Ea Ia]]. destruct Hb as [gb [Eb Ib]]. subst a b. apply Hk; assumption.
+Qed.
+
+Lemma mapM_ext_in {A B} (f g : A -> res B) : forall l, (forall x, In x l -> f x = g x) -> mapM f l = mapM g l.
+Proof.
+  induction l as [|x xs IH]; intros H; cbn [mapM]; [reflexivity|].
+  rewrite (H x (or_introl eq_refl)). rewrite IH; [reflexivity|]. intros y Hy. apply H. right. exact Hy.
+Qed.
+
+(* every enumerator yields a permutation of the set it is given *)
+Definition enumerates (en : enum) : Prop := forall ri s, Permutation (en ri s) s.
+(* guard for a dict of anchoring genes: within each rule the key separates the genes *)
+Definition anchors_separated (gs : list M03.gene) (a : M03.anchors) : Prop :=
+  forall e, In e a -> key_separates (anchoring gs (snd e)).
+
+Lemma key_separates_perm : forall o o', Permutation o o' -> key_separates o -> key_separates o'.
+Proof.
+  intros o o' Hp Hk a b Ha Hb. apply Hk; apply (Permutation_in _ (Permutation_sym Hp)); assumption.
+Qed.
+
+Lemma initial_protos_perm : forall en en' N circular gs rules a,
+  enumerates en -> enumerates en' -> anchors_separated gs a ->
+  initial_protos_gen true en N circular gs rules a = initial_protos_gen true en' N circular gs rules a.
+Proof.
+  intros en en' N circular gs rules a He He' Hs. unfold initial_protos_gen.
+  f_equal. apply mapM_ext_in. intros e Hin.
+  change (rule_cores_gen true) with rule_cores_o.
+  rewrite (rule_cores_perm N circular (M03.nth_rule rules (fst e)) (en (fst e) (anchoring gs (snd e))) (en' (fst e) (anchoring gs (snd e)))).
+  - reflexivity.
+  - apply Permutation_trans with (anchoring gs (snd e)); [apply He|apply Permutation_sym; apply He'].
+  - apply key_separates_perm with (anchoring gs (snd e)); [apply Permutation_sym; apply He|apply Hs; exact Hin].
+Qed.
+
+Lemma find_protoclusters_o_perm_proof : forall en en' N circular gs hs rules a,
+  enumerates en -> enumerates en' -> anchors_separated gs a ->
+  find_protoclusters_o en N circular gs hs rules a = find_protoclusters_o en' N circular gs hs rules a.
+Proof.
+  intros. unfold find_protoclusters_o, find_protoclusters_gen.
+  rewrite (initial_protos_perm en en'); [reflexivity|assumption..].
+Qed.
+
+Lemma detection_perm_proof : forall en en' N circular gs hs rules cached,
+  enumerates en -> enumerates en' ->
+  (forall a, M03.apply_cluster_rules N circular gs hs rules cached = Ok a -> anchors_separated gs a) ->
+  pipeline_o en N circular gs hs rules cached = pipeline_o en' N circular gs hs rules cached.
+Proof.
+  intros en en' N circular gs hs rules cached He He' Hs. unfold pipeline_o, pipeline_gen.
+  destruct gs as [|g0 gs']; [reflexivity|].
+  destruct (mapM (fun g : M03.gene => M03.fkey (snd g)) (g0 :: gs')); [|reflexivity]. cbn [bind].
+  destruct hs as [|h0 hs']; [reflexivity|].
+  destruct (M03.apply_cluster_rules N circular (g0 :: gs') (h0 :: hs') rules cached) as [an|k] eqn:E; [|reflexivity].
+  cbn [bind]. apply find_protoclusters_o_perm_proof; [assumption..|]. apply Hs. reflexivity.
+Qed.
+
+(* a record-wide sufficient condition *)
+Lemma separated_of_record : forall gs a, key_separates gs -> anchors_separated gs a.
+Proof.
+  intros gs a Hk e _ x y Hx Hy. unfold anchoring in *. apply filter_In in Hx. apply filter_In in Hy.
+  apply Hk; [exact (proj1 Hx)|exact (proj1 Hy)].
+Qed.
+
+(* the decidable guard *)
+Lemma no_key_ties_sound : forall l, no_key_ties l = true ->
+  forall a b, In a l -> In b l -> M03.klt a b = false -> M03.klt b a = false -> a = b.
+Proof.
+  induction l as [|x xs IH]; intros H a b Ha Hb Hab Hba; [destruct Ha|].
+  cbn [no_key_ties] in H. apply andb_true_iff in H. destruct H as [Hx Hxs].
+  rewrite forallb_forall in Hx.
+  destruct Ha as [Ea|Ha]; destruct Hb as [Eb|Hb].
+  - subst. reflexivity.
+  - subst a. specialize (Hx b Hb). rewrite Hab, Hba in Hx. cbn in Hx. apply C04.Proofs.loc_eqb_eq. exact Hx.
+  - subst b. specialize (Hx a Ha). rewrite Hab, Hba in Hx. cbn in Hx. symmetry. apply C04.Proofs.loc_eqb_eq. exact Hx.
+  - apply IH; assumption.
+Qed.
+Lemma no_key_ties_separates : forall gs, no_key_ties (map snd gs) = true -> key_separates gs.
+Proof.
+  intros gs H a b Ha Hb. apply (no_key_ties_sound _ H); apply in_map; assumption.
+Qed.
+
+(* at the identity enumerator the model is C03's *)
+Lemma detection_o_id_proof : forall N circular gs hs rules cached,
+  pipeline_o en_id N circular gs hs rules cached = M03.pipeline N circular gs hs rules cached.
+Proof. reflexivity. Qed.
+
+Lemma en_rev_enumerates : enumerates en_rev.
+Proof. intros ri s. unfold en_rev. apply Permutation_sym. apply Permutation_rev. Qed.
+Lemma en_id_enumerates : enumerates en_id.
+Proof. intros ri s. apply Permutation_refl. Qed.
+
+Lemma detection_perm_record_proof : forall en en' N circular gs hs rules cached,
+  enumerates en -> enumerates en' -> no_key_ties (map snd gs) = true ->
+  pipeline_o en N circular gs hs rules cached = pipeline_o en' N circular gs hs rules cached.
+Proof.
+  intros en en' N circular gs hs rules cached He He' Hk. apply detection_perm_proof; [assumption..|].
+  intros a _. apply separated_of_record. apply no_key_ties_separates. exact Hk.
+Qed.
+
+(* ---- witnesses (circular record of 100 000 bp; rule 0 = superior `p1`, rule 1 = inferior `p0` SUPERIORS rule 0) *)
+Definition w_rule (cut : Z) (prof : Z) (sup : list Z) : M03.rule :=
+  M03.mkRule cut 1000 (C01.Model.Group false [C01.Model.ICond (C01.Model.Single false prof)]) None sup.
+Definition w_hits : M03.hits := [(0, [(0, 0)]); (1, [(0, 0)]); (2, [(0, 0); (1, 0)]); (3, [(0, 0)])].
+(* finding crossing_anchor_key_tie_set_order: genes 0 and 1 cross the origin, same start 99001 and same length 3999, gene 1
+   has two exons before the origin and reaches 800 bp further; gene 2 lies 600 bp after gene 1 and 1400 bp after gene 0 *)
+Definition w_tie_genes : list M03.gene :=
+  [(0, [mkPart 99001 100000 1; mkPart 0 3000 1]);
+   (1, [mkPart 99001 99100 1; mkPart 99900 100000 1; mkPart 0 3800 1]);
+   (2, [mkPart 4400 4700 1]); (3, [mkPart 50000 50600 1])].
+Definition w_tie_rules : list M03.rule := [w_rule 1000 1 []; w_rule 1000 0 [0]].
+(* round-4 seed: a short origin-crossing gene (1) nested in a long one (0), gene 2 within the cutoff of the long one only;
+   Feature.__lt__ separates all four genes *)
+Definition w_nested_genes : list M03.gene :=
+  [(0, [mkPart 99001 100000 1; mkPart 0 3000 1]); (1, [mkPart 99700 100000 1; mkPart 0 200 1]);
+   (2, [mkPart 4000 4600 1]); (3, [mkPart 50000 50600 1])].
+Definition w_nested_rules : list M03.rule := [w_rule 2000 1 []; w_rule 2000 0 [0]].
+
+Lemma detection_key_tie_refuted_proof :
+  exists N gs hs rules en en', enumerates en /\ enumerates en' /\
+    pipeline_o en N true gs hs rules true <> pipeline_o en' N true gs hs rules true.
+Proof.
+  exists 100000, w_tie_genes, w_hits, w_tie_rules, en_id, en_rev.
+  split; [exact en_id_enumerates|]. split; [exact en_rev_enumerates|].
+  vm_compute. discriminate.
+Qed.
+
+(* the first sorted() is needed: without it the cores of the origin-crossing genes follow the enumeration although no two
+   genes tie on the key; the code (with it) gives one result for the same input *)
+Lemma detection_presort_needed_refuted_proof :
+  exists N gs hs rules en en', enumerates en /\ enumerates en' /\ no_key_ties (map snd gs) = true /\
+    pipeline_gen false en N true gs hs rules true <> pipeline_gen false en' N true gs hs rules true /\
+    pipeline_o en N true gs hs rules true = pipeline_o en' N true gs hs rules true.
+Proof.
+  exists 100000, w_nested_genes, w_hits, w_nested_rules, en_id, en_rev.
+  split; [exact en_id_enumerates|]. split; [exact en_rev_enumerates|].
+  split; [vm_compute; reflexivity|]. split; [vm_compute; discriminate|vm_compute; reflexivity].
+Qed.
+
+
+End DetP.
+
